@@ -1598,6 +1598,7 @@ func (c *connection) handleRecvQueue(q lib.QueueMPSC) {
 			idFrom := binary.BigEndian.Uint64(buf.B[8:16])
 			priority := gen.MessagePriority(buf.B[16] & 3)
 			important := (buf.B[16] & 128) > 0
+			idRef := binary.BigEndian.Uint64(buf.B[17:25]) // read before the buffer is released
 			idTO := binary.BigEndian.Uint64(buf.B[25:33])
 
 			msg, tail, err := edf.Decode(buf.B[33:], c.decodeOptions)
@@ -1637,7 +1638,7 @@ func (c *connection) handleRecvQueue(q lib.QueueMPSC) {
 				continue
 			}
 
-			opts.Ref.ID[0] = binary.BigEndian.Uint64(buf.B[17:25])
+			opts.Ref.ID[0] = idRef
 			c.SendResponseError(to, from, opts, err)
 
 		case protoMessageName, protoMessageNameCache: // name, chached name
@@ -1685,6 +1686,7 @@ func (c *connection) handleRecvQueue(q lib.QueueMPSC) {
 			idFrom := binary.BigEndian.Uint64(buf.B[8:16])
 			priority := gen.MessagePriority(buf.B[16] & 3)
 			important := (buf.B[16] & 128) > 0
+			idRef := binary.BigEndian.Uint64(buf.B[17:25]) // read before the buffer is released
 
 			msg, tail, err := edf.Decode(data, c.decodeOptions)
 			if releaseBuffer {
@@ -1728,7 +1730,7 @@ func (c *connection) handleRecvQueue(q lib.QueueMPSC) {
 				continue
 			}
 
-			opts.Ref.ID[0] = binary.BigEndian.Uint64(buf.B[17:25])
+			opts.Ref.ID[0] = idRef
 			c.SendResponseError(gen.PID{}, from, opts, err)
 
 		case protoMessageAlias:
@@ -1740,6 +1742,7 @@ func (c *connection) handleRecvQueue(q lib.QueueMPSC) {
 			idFrom := binary.BigEndian.Uint64(buf.B[8:16])
 			priority := gen.MessagePriority(buf.B[16] & 3)
 			important := (buf.B[16] & 128) > 0
+			idRef := binary.BigEndian.Uint64(buf.B[17:25]) // read before the buffer is released
 			idTo := [3]uint64{
 				binary.BigEndian.Uint64(buf.B[25:33]),
 				binary.BigEndian.Uint64(buf.B[33:41]),
@@ -1783,7 +1786,7 @@ func (c *connection) handleRecvQueue(q lib.QueueMPSC) {
 				continue
 			}
 
-			opts.Ref.ID[0] = binary.BigEndian.Uint64(buf.B[17:25])
+			opts.Ref.ID[0] = idRef
 			c.SendResponseError(gen.PID{}, from, opts, err)
 
 		case protoRequestPID:
